@@ -243,7 +243,7 @@ PROPS = {
             'that the operation IS invoked (capabilities forbid calls, they cannot demand one); that a reply is sent is covered as on the sync side, on results ([C20.<op>.replied] / [C20.<op>.answered], same clauses as C01)',
             'interleavings with other tasks, cancellation at an await point, Send and lifetime obligations of the futures (rule R18 drops `async` and `.await`)',
             'bytes moved through AsyncZcWriter / AsyncZcReader',
-            'non-forwarding bodies of the Arc<FS> AsyncFileSystem impl are undecided (exit 2); async results cannot carry the passthrough backing id (Vfs async_open / async_create are specified as the sync result minus that component); the AsyncFileSystem impl of OverlayFs (there is none in this tree); PassthroughFs's is covered (unit asyncpt: every async operation is its sync twin with the same arguments)',
+            'non-forwarding bodies of the Arc<FS> AsyncFileSystem impl are undecided (exit 2); async results cannot carry the passthrough backing id (Vfs async_open / async_create are specified as the sync result minus that component); the AsyncFileSystem impl of OverlayFs (there is none in this tree); the one of PassthroughFs is covered (unit asyncpt: every async operation is its sync twin with the same arguments)',
             'logging and MetricsHook calls',
         ],
         trusted=['T3/T4 as C01', 'T4a Writer::async_write* / async_commit have the contracts of their sync twins (async_commit checked on the real text in unit asyncdevw; nix pwrite is a device write under the same capability)',
